@@ -26,6 +26,8 @@ Definition sInFlight : N := 3.   (* inside the wrapped function *)
 Definition sDoneOk : N := 4.     (* Do returned the wrapped function's result *)
 Definition sDoneErrEp : N := 5.  (* Do returned the context error while waiting for its path *)
 Definition sDoneErrTot : N := 6. (* Do returned the context error while waiting for the total limit *)
+Definition sCancelling : N := 10. (* its context is cancelled and its goroutine has noticed that, but has
+                                     not yet told the limiter (it is delayed); the call has not returned *)
 (* anything else: panic, hang, unknown *)
 
 Record obs := Ob {
@@ -39,7 +41,10 @@ Inductive ev :=
 | EArr (r k : N)     (* request r for path k calls Do *)
 | EArrC (r k : N)    (* the same with a context that is already cancelled *)
 | ECan (r : N)       (* r's context is cancelled *)
-| EFin (r : N).      (* the wrapped function of r returns *)
+| EFin (r : N)       (* the wrapped function of r returns *)
+| ECanH (r : N)      (* r's context is cancelled and r notices it, but r's goroutine is then delayed
+                        before it does anything about it *)
+| ERes (r : N).      (* the delayed goroutine of r continues *)
 
 Definition stat (o : obs) (r : N) : N := nth (N.to_nat r) (o_sts o) sNotYet.
 Definition blocked (s : N) : bool := N.eqb s sWaitEp || N.eqb s sWaitTot.
@@ -99,6 +104,38 @@ Definition cancel_ok (o o' : obs) (r : N) (ar : list (N * N)) : bool :=
      else true)
   else true.
 
+(* clause 4, delayed waiter.  Noticing the cancellation changes nothing for anybody else. *)
+Definition cancel_hold_ok (o o' : obs) (r : N) (ar : list (N * N)) : bool :=
+  if N.eqb (stat o r) sWaitEp then
+    N.eqb (stat o' r) sCancelling && others_same o o' r ar &&
+    zlist_eqb (map gauge (o_keys o)) (map gauge (o_keys o')) &&
+    zlist_eqb (map counter (o_keys o)) (map counter (o_keys o')) &&
+    (fst (o_sem o) =? fst (o_sem o')) && (snd (o_sem o) =? snd (o_sem o'))
+  else true.
+(* When the delayed goroutine continues, its call returns the context's error (it never enters
+   the wrapped function: it takes no slot), nobody leaves the wrapped function, and the only change
+   for the others is that at most ONE request that was waiting for the same path is admitted (the
+   cancelled request passes on the one slot it may have been handed while it was delayed). *)
+Definition admitted_now (o o' : obs) (x : N) : bool :=
+  N.eqb (stat o x) sWaitEp && (N.eqb (stat o' x) sWaitTot || N.eqb (stat o' x) sInFlight).
+Definition resume_ok (o o' : obs) (r : N) (ar : list (N * N)) : bool :=
+  if N.eqb (stat o r) sCancelling then
+    cancelled_result (stat o' r) &&
+    forallb (fun rk => N.eqb (fst rk) r || N.eqb (stat o (fst rk)) (stat o' (fst rk)) || admitted_now o o' (fst rk)) ar &&
+    (Z.of_nat (length (filter (fun rk => negb (N.eqb (fst rk) r) && admitted_now o o' (fst rk)) ar)) <=? 1)
+  else true.
+
+(* "neither takes nor gives away a slot it does not own", "never leak", as slot accounting at
+   every instant: per path, the slots taken (the in-flight count of the endpoint queue, 0 when the
+   path has no entry) cover every request that owns one (it waits for the total limit or is inside
+   the wrapped function), and exceed them by at most the cancelled requests that are delayed (each
+   of them may have been handed a slot that it has not passed on yet). *)
+Definition slots_accounted_ok (o : obs) (ar : list (N * N)) : bool :=
+  forallb (fun k =>
+    let own := count_st o ar k (fun s => N.eqb s sWaitTot || N.eqb s sInFlight) in
+    let cnt := Z.max 0 (counter (nth (N.to_nat k) (o_keys o) (0, -1, 0))) in
+    (own <=? cnt) && (cnt <=? own + count_st o ar k (N.eqb sCancelling))) (key_ids o).
+
 (* clause 5: once all calls have returned the limiter is idle *)
 Definition all_returned (o : obs) (ar : list (N * N)) : bool :=
   forallb (fun rk => returned (stat o (fst rk))) ar.
@@ -117,15 +154,17 @@ Definition admitted_when_idle_ok (o o' : obs) (e : ev) (ar : list (N * N)) : boo
 
 (* "never leak", at every instant: nobody waits for a path that has a free slot, nobody waits for
    the total limit while a unit is free (a slot is owned by a request that waits for the total
-   limit or is inside the wrapped function) *)
+   limit or is inside the wrapped function; a cancelled request that is delayed may have been
+   handed one which it has not passed on yet) *)
 Definition no_idle_slot_ok (epl tot : Z) (o : obs) (ar : list (N * N)) : bool :=
   forallb (fun k =>
+    let own := count_st o ar k (fun s => N.eqb s sWaitTot || N.eqb s sInFlight) in
     (count_st o ar k (N.eqb sWaitEp) =? 0) ||
-    (limited epl && (count_st o ar k (fun s => N.eqb s sWaitTot || N.eqb s sInFlight) =? epl))) (key_ids o) &&
+    (limited epl && (own <=? epl) && (epl <=? own + count_st o ar k (N.eqb sCancelling)))) (key_ids o) &&
   ((count_all o ar (N.eqb sWaitTot) =? 0) ||
    (limited tot && (count_all o ar (N.eqb sInFlight) =? tot))).
 
-Definition sane (o : obs) : bool := forallb (fun s => N.leb s sDoneErrTot) (o_sts o).
+Definition sane (o : obs) : bool := forallb (fun s => N.leb s sDoneErrTot || N.eqb s sCancelling) (o_sts o).
 
 Definition log_arrival (ar : list (N * N)) (e : ev) : list (N * N) :=
   match e with EArr r k | EArrC r k => ar ++ [(r, k)] | _ => ar end.
@@ -137,7 +176,12 @@ Definition step_class (epl tot : Z) (o : obs) (e : ev) (o' : obs) (ar : list (N 
   else if negb (ep_limit_ok epl o' ar') then 1%N
   else if negb (total_limit_ok tot o' ar') then 2%N
   else if negb (fifo_ok o o' [] ar') then 3%N
-  else if negb (match e with ECan r => cancel_ok o o' r ar | _ => true end) then 4%N
+  else if negb (match e with
+                | ECan r => cancel_ok o o' r ar
+                | ECanH r => cancel_hold_ok o o' r ar
+                | ERes r => resume_ok o o' r ar
+                | _ => true end) then 4%N
+  else if negb (slots_accounted_ok o' ar') then (match e with ECan _ | ECanH _ | ERes _ => 4%N | _ => 9%N end)
   else if negb (idle_ok o' ar') then 5%N
   else if negb (admitted_when_idle_ok o o' e ar) then 6%N
   else if negb (no_idle_slot_ok epl tot o' ar') then 8%N
